@@ -8,19 +8,20 @@
 
    The decoder of the stream is modelled as a total Coq function (coq/model/Codec.v
    [decode]; termination by construction, every loop bounded by the number of remaining
-   bytes) with an allocation account [alloc_decode]: the bytes requested by every
-   make([]byte, n) / make([]string, n) whose n is read from the stream.
+   bytes) with an allocation account [alloc_decode] for the repaired reader (engine commit
+   2f18ef4): 8 bytes per length / count / int buffer, 1 per bool, for a byte block
+   announced with length n the number of bytes the growing buffer comes to hold
+   (min n (bytes remaining); n > MaxInt64 is rejected before reading), 16 bytes per element
+   appended to a []string.  The growth policy of bytes.Buffer / append (a constant factor)
+   and the nodes BuildKnowledgeBase allocates per meta are not part of the account; the
+   harness bounds the implementation's TotalAlloc on the same inputs.
 
-   The engine trusts length prefixes (ReadStringFromReader: make([]byte, int(strLen))
-   before a single byte of the string is read), so the allocation clause is REFUTED for
-   the binary loader: no linear bound holds, witnessed by 19-byte streams.  What does
-   hold: a stream that decodes requested at most three times its own length. *)
+   The allocation clause holds for EVERY byte string, decodable or not:
+   alloc_decode bs <= 3 * length bs + 8.  That no make in ast/Serializer.go takes its size
+   from the stream (except the guarded one of the constant rebuild) is anchored to the
+   source in proofs/AnchorsCodec.v (anchor_no_length_driven_make, anchor_raw_reads). *)
 From Grule Require Import Base CodecPrim Codec CodecProofs.
 
-Theorem C20_binary_refuted : C20_binary_refuted_statement.
-Proof. exact C20_binary_refuted_proved. Qed.
-Print Assumptions C20_binary_refuted.
-
-Theorem C20_binary_partial : C20_binary_partial_statement.
-Proof. exact C20_binary_partial_proved. Qed.
-Print Assumptions C20_binary_partial.
+Theorem C20_binary : C20_binary_statement.
+Proof. exact C20_binary_proved. Qed.
+Print Assumptions C20_binary.
